@@ -97,7 +97,9 @@ let run path =
         let i = first 1 in
         let line = (try fst (L.nth evs (i - 1)) with _ -> "?") in
         let extra = if name = "c07_single_ack" || name = "c07_no_publish_after_release"
-          then (if ConnSpec.prompt_acks pevs then " prompt_acks=true" else " prompt_acks=false") else "" in
+          then (if ConnSpec.prompt_acks pevs then " prompt_acks=true" else " prompt_acks=false")
+          else if name = "c16_bound"
+          then (if ConnProofsCDefs.c16_window_const pevs then " window_const=true" else " window_const=false") else "" in
         incr pf;
         Printf.printf "propfail %s %s seq=%d%s at: %s | %s\n" k name (i - 1) extra line (if S.length !desc > 200 then S.sub !desc 0 200 else !desc)
       end) clauses;
